@@ -328,7 +328,15 @@ def drive(prop_id, tier, seed):
         if violation["rule"] in seen_rules or reported >= 3:
             continue
         seen_rules.add(violation["rule"])
-        small, small_violation, shrink_runs = shrink(P, case, violation)
+        if hasattr(P, "reduce"):
+            reduced = P.reduce(case, violation)
+            hit = _still_fails(P, reduced, violation["rule"])
+            if hit is not None:
+                case, violation = reduced, hit
+        if getattr(P, "NO_SHRINK", False) or "batch" in case:
+            small, small_violation, shrink_runs = case, violation, 0
+        else:
+            small, small_violation, shrink_runs = shrink(P, case, violation)
         path = write_replay(prop_id, small, small_violation, seed,
                             {"shrink_runs": shrink_runs, "original_case": case})
         code, line = confirm_fresh(prop_id, path)
